@@ -2,7 +2,7 @@
    (second model file; no proofs).  Each machine extends the update functions of Model.v with the
    parameter setters of the C++ class, so that histories may change parameters between updates. *)
 From Coq Require Import List Arith ZArith QArith Qminmax Qround Bool.
-From AIT Require Import Base.Qx C09.Model.
+From AIT Require Import Base.Qx C09.Model C09.Spec.
 Import ListNotations.
 Local Open Scope Q_scope.
 
@@ -277,3 +277,15 @@ Definition t3c_sample (means : vec) (counts : list nat) (var : Q) (first : nat) 
   if Nat.ltb (nth first counts 0%nat) 2 then first
   else if pick then first
   else t3c_scan (t3c_costs means counts var first) 0 None 0 us.
+
+(* ------------------------------------------------------------------ MDP::QSoftmaxPolicy (whole table) *)
+(* src: MDP/Policies/QSoftmaxPolicy.cpp:getPolicy — one QSoftmaxPolicyWrapper per state row;
+   getActionProbability(s, a) — the wrapper on row s *)
+Section MSoftmax.
+Variable ex : Q -> Q.
+Definition msoftmax_policy (T : Q) (qm : mat) : mat := map (softmax_policy ex T) qm.
+Definition msoftmax_prob (T : Q) (qm : mat) (s a : nat) : Q := softmax_prob ex T (row qm s) a.
+End MSoftmax.
+(* every state row moved by its own constant *)
+Definition shift_rows (cs : vec) (qm : mat) : mat :=
+  map (fun cq : Q * vec => shift (fst cq) (snd cq)) (combine cs qm).
